@@ -45,8 +45,8 @@ PROPS = {
     "C05": {"families": {"fmt": None}, "tables": True},
     "C06": {"families": {"norm": None}, "tables": False},
     "C07": {"families": {"dual": None}, "tables": False},
-    "C08": {"families": {"posarr": ["pa ed"]}, "tables": False},
-    "C09": {"families": {"posarr": ["pa cs"]}, "tables": False},
+    "C08": {"families": {"posarr": ["pa ed", "pah"], "target": None}, "tables": False},
+    "C09": {"families": {"posarr": ["pa cs", "pah"], "target": None}, "tables": False},
     "C10": {"families": {"cmp": ["cmp "], "win": None}, "tables": False},
     "C11": {"families": {"ops": None}, "tables": False, "configs_quick": ["default-debug", "default-release"],
             "configs_thorough": ["default-debug", "default-release"]},
@@ -304,6 +304,21 @@ def tokmatch(spec, actual):
     return all(a == "*" or a == b for a, b in zip(st, at))
 
 
+def spec_silent_on_diff(spec, impl, model):
+    """True when every token on which implementation and model differ is one the executable
+    specification says nothing about ('*' or beyond the spec's prefix): then the (proved) model is the
+    only reference for the difference and the op is a failing input for it."""
+    st, it, mt = spec.split(" "), impl.split(" "), model.split(" ")
+    n = max(len(it), len(mt))
+    for i in range(n):
+        a = it[i] if i < len(it) else None
+        b = mt[i] if i < len(mt) else None
+        if a != b:
+            if i < len(st) and st[i] != "*":
+                return False
+    return True
+
+
 ORACLE_BAD = re.compile(r"DISAGREE|INCONSISTENT|DISTURBED|DBGPANIC|CRASHED|PANIC-UNCAUGHT|LEN-MISMATCH|FORMS")
 
 
@@ -370,6 +385,44 @@ def run_family(corr, base_corr, family, tier, seed, strict=False, keep=None):
         idx = [i for i, o in enumerate(data["ops"]) if any(o.startswith(p) for p in keep)]
         data = {k: ([v[i] for i in idx] if isinstance(v, list) else v) for k, v in data.items()}
     return data
+
+
+# observables of the shared `gen` family that each property's statement constrains (tokens of a result
+# line are `s=<declaration result>`, `f=<digest in the four output forms>`, `n=<input size>`,
+# `w=<may-warn query>`; anything else — bad-op, panic markers — is always kept)
+PROJECT = {
+    ("C01", "gen"): ("f=",),
+    ("C03", "gen"): ("f=", "n="),
+    ("C12", "gen"): ("s=", "f=", "n="),
+    ("C13", "gen"): ("s=", "f=", "w="),
+    # reuse histories of a position array (`pah`): the distance / substring answer of the reused object
+    ("C08", "posarr"): ("ed=",),
+    ("C09", "posarr"): ("cs=",),
+    # reuse histories of a compare target (`tgt`): distance / substring / candidate answers only
+    ("C08", "target"): ("e1=", "e2="),
+    ("C09", "target"): ("h1=", "h2=", "c="),
+}
+_KNOWN_TOK = re.compile(r"^[a-z]+=")
+
+
+def project3(pid, family, impl, model, spec):
+    """restrict the three result strings to the tokens the property constrains; the spec is a positional
+    pattern over the model's tokens ('*' = no oracle), so it is cut at the same positions as the model"""
+    allowed = PROJECT.get((pid, family))
+    if allowed is None:
+        return impl, model, spec
+    keep = lambda t: (not _KNOWN_TOK.match(t)) or t.startswith(allowed)
+    mt = model.split(" ")
+    pi = " ".join(t for t in impl.split(" ") if keep(t))
+    pm = " ".join(t for t in mt if keep(t))
+    if spec in ("-", "*", ""):
+        ps = spec
+    else:
+        st = spec.split(" ")
+        ps = " ".join(t for j, t in enumerate(st) if (keep(mt[j]) if j < len(mt) else True))
+        if ps == "":
+            ps = "-"
+    return pi, pm, ps
 
 
 def shape(family, op, res):
